@@ -89,5 +89,65 @@ fn main() {
             }
         }
     }
+    // re-pinning sequences on ONE thread (and two hardware instances side by side): the answers follow the last pin
+    let res = thread::spawn(move || -> Vec<String> {
+        let mk = || {
+            let mut b = HardwareBuilder::new();
+            for id in 0..4u32 {
+                b = b.processor(ProcessorBuilder::new().id(id).memory_region(id % 2));
+            }
+            SystemHardware::fake(b)
+        };
+        let hw = mk();
+        let other = mk();
+        let subsets: Vec<Vec<u32>> = (1u32..16).map(|m| (0..4u32).filter(|i| m >> i & 1 == 1).collect()).collect();
+        let mut out = Vec::new();
+        let mut seed = 12345u64;
+        let mut history: Vec<Vec<u32>> = Vec::new();
+        for step in 0..400 {
+            seed = seed.wrapping_mul(6364136223846793005).wrapping_add(1442695040888963407);
+            let ids = subsets[((seed >> 33) % 15) as usize].clone();
+            let on_other = step % 7 == 3;
+            let target = if on_other { &other } else { &hw };
+            let set = target.all_processors().to_builder().filter(|p| ids.contains(&p.id())).take_all().expect("non-empty");
+            set.pin_current_thread_to();
+            history.push(ids.clone());
+            let regions: HashSet<u32> = ids.iter().map(|i| i % 2).collect();
+            let mut bad = Vec::new();
+            if target.is_thread_processor_pinned() != (ids.len() == 1) {
+                bad.push("is_thread_processor_pinned()");
+            }
+            if target.is_thread_memory_region_pinned() != (regions.len() == 1) {
+                bad.push("is_thread_memory_region_pinned()");
+            }
+            if regions.len() == 1 && target.is_thread_memory_region_pinned() && target.current_memory_region_id() != ids[0] % 2 {
+                bad.push("current_memory_region_id()");
+            }
+            if ids.len() == 1 && target.is_thread_processor_pinned() && target.current_processor_id() != ids[0] {
+                bad.push("current_processor_id()");
+            }
+            if !bad.is_empty() {
+                let h = &history[history.len().saturating_sub(4)..];
+                out.push(format!("4 processors in 2 regions (id % 2); pins on one thread, last ones {h:?} (this one on the {} instance): {} disagree(s) with the last pin", if on_other { "second" } else { "first" }, bad.join(", ")));
+                if out.len() >= 3 {
+                    break;
+                }
+            }
+        }
+        out
+    })
+    .join();
+    match res {
+        Ok(v) => {
+            for m in v {
+                failures += 1;
+                println!("FAILING-INPUT {m}");
+            }
+        }
+        Err(_) => {
+            failures += 1;
+            println!("FAILING-INPUT re-pinning sequence: panicked");
+        }
+    }
     println!("runs={runs} failures={failures}");
 }
